@@ -126,6 +126,18 @@ CLAIMED = {
             'every pass of the literal scanner starts from constant scanner state and counters; numbers are printed through exact GMP conversion. The digit-counting '
             'arithmetic inside the scanner passes and the printed values themselves are value-level and not decided.',
             'static analysis: forbidden-argument rule with call-site resolution, validation-dominance rule, pass-initialisation (reaching-constant) rule on the scanner', ''),
+    'C15': ('other',
+            'Static: (1) UB-obligation engine - every compiler-inserted sanitizer obligation (signed overflow, narrowing, sign change, float cast) in FastRational.h/.cc is '
+            'either deleted by LLVM -O2 range analysis or listed in a table with a written justification and the guards it relies on (guards must still be present); the IR '
+            'is only read; (2) commit-after-check: no operand field is written on a path that can still branch to the GMP fallback; (3) every fallback tail re-canonicalises '
+            '(equal values, equal representation); (4) the word paths of gcd/lcm work on absolute values like the GMP paths. Absence of unguarded wrap-around and these '
+            'protocol clauses, not correctness of the arithmetic.',
+            'static analysis: compiler-discharged sanitizer obligations read from LLVM IR + frozen justified residual table; path-sensitive commit-after-check walk', 'clang 14.0.6 -O2 as the discharging analysis'),
+    'C27': ('other',
+            'Static, narrow: the UB-obligation engine restricted to SafeInt / Converter<SafeInt> and the rounding helpers of FastRational (fastrat_fdiv_q, divexact, '
+            'operator%, ceil, floor): every signed add/sub/negate/divide and narrowing is discharged by LLVM -O2 or justified with guards that must be present; the word '
+            'paths exclude the INT_MIN operand pair whose quotient does not fit. The rounding identities themselves need a solver and are not decided.',
+            'static analysis: compiler-discharged sanitizer obligations read from LLVM IR + frozen justified residual table', 'clang 14.0.6 -O2 as the discharging analysis'),
 }
 
 NOT_APPLICABLE = {
